@@ -20,10 +20,10 @@ for try in 1 2 3; do
 done
 [ $ok = 1 ] || { echo "FAIL existing tests with change" | tee -a $LOG; git checkout -q -- .; exit 1; }
 cp $S/demo${K}_test.go $PKG/zz_seed_demo${K}_test.go
-if go test -count=1 -run "TestSeedDemo${K}" ./$PKG/ >> $LOG 2>&1; then echo "FAIL demo passes WITH change" | tee -a $LOG; rm -f $PKG/zz_seed_demo*_test.go; git checkout -q -- .; exit 1; fi
+if go test ${SEED_TAGS:+-tags $SEED_TAGS} -count=1 -run "TestSeedDemo${K}" ./$PKG/ >> $LOG 2>&1; then echo "FAIL demo passes WITH change" | tee -a $LOG; rm -f $PKG/zz_seed_demo*_test.go; git checkout -q -- .; exit 1; fi
 git checkout -q -- .
 cp $S/demo${K}_test.go $PKG/zz_seed_demo${K}_test.go
-if ! go test -count=1 -run "TestSeedDemo${K}" ./$PKG/ >> $LOG 2>&1; then echo "FAIL demo fails WITHOUT change" | tee -a $LOG; rm -f $PKG/zz_seed_demo*_test.go; exit 1; fi
+if ! go test ${SEED_TAGS:+-tags $SEED_TAGS} -count=1 -run "TestSeedDemo${K}" ./$PKG/ >> $LOG 2>&1; then echo "FAIL demo fails WITHOUT change" | tee -a $LOG; rm -f $PKG/zz_seed_demo*_test.go; exit 1; fi
 rm -f $PKG/zz_seed_demo*_test.go
 D=/verif/seeded/$PROP-$NAME
 mkdir -p $D
